@@ -144,6 +144,7 @@ type Scenario struct {
 	Init      func(w *World) // after client construction, before the first step
 	MaxConns  int
 	Key       func(w *World) string // extra state for the pruning key
+	StepCheck func(w *World)        // invariant evaluated at every quiescent state
 }
 
 type point struct {
@@ -844,7 +845,7 @@ func runExec(t *testing.T, scn *Scenario, prefix []int, pr pruner, trace bool) (
 		}
 		idleMax := scn.IdleTicks
 		if idleMax == 0 {
-			idleMax = 12
+			idleMax = 60
 		}
 		idle := 0
 		var lastKey uint64
@@ -860,6 +861,9 @@ func runExec(t *testing.T, scn *Scenario, prefix []int, pr pruner, trace bool) (
 			if w.step >= horizon {
 				w.horizonHit = true
 				break
+			}
+			if scn.StepCheck != nil {
+				scn.StepCheck(w)
 			}
 			menu := w.menu()
 			key := w.stateKey()
@@ -991,3 +995,5 @@ func (w *World) teardown() {
 
 var _ = context.Background
 var _ = errors.New
+
+func synctestWait() { synctest.Wait() }
